@@ -223,8 +223,8 @@ Lemma invB_init g progs : invB (init_g g progs).
 Proof.
   split.
   - intros k e H. cbn in H. discriminate.
-  - intros q b. unfold init; cbn [s_calls s_thr s_ents]. rewrite cnt_idle by reflexivity. reflexivity.
-  - intros q. unfold absent, init; cbn [s_calls s_thr s_ents s_map s_cuts s_fails s_evicts s_upg].
+  - intros q b. unfold init_g; cbn [s_calls s_thr s_ents]. rewrite cnt_idle by reflexivity. reflexivity.
+  - intros q. unfold absent, init_g; cbn [s_calls s_thr s_ents s_map s_cuts s_fails s_evicts s_upg].
     rewrite cnt_idle by reflexivity. cbn. lia.
   - intros q. cbn. lia.
   - intros q. cbn. lia.
